@@ -47,6 +47,7 @@ func main() {
 	unst := fs.Int("unst", -1, "crash: the server's unstable option (1 on, 0 off, -1 derived from the seed)")
 	sconc := fs.Int("sconc", 0, "simple/kvs: concurrent clients (0 = sequential driver)")
 	access := fs.Bool("access", false, "conc: record lock events and inode accesses instead of the history")
+	storm := fs.Bool("storm", false, "conc: most requests truncate and re-extend the one large sparse file")
 	many := fs.Int("many", 0, "conc: extra files shared by all clients (more than the inode cache holds)")
 	sizesFlag := fs.String("sizes", "", "layout: disk sizes, e.g. 1536-1600,32760-32776 (increasing)")
 	fillFlag := fs.String("fill", "", "layout: sizes to fill completely")
@@ -183,7 +184,7 @@ func main() {
 		}
 		for i := 0; i < *nseg; i++ {
 			drv.RunConc(drv.ConcCfg{Seed: *seed*1000 + i, Clients: *clients, OpsPer: *steps, Unstable: i%2 == 0, Avoid: avoidSet(*avoid),
-				Access: *access, Many: *many, Crash: *crashMode, Loss: *loss, MaxImg: *maximg, DiskSz: concDisk(*crashMode, *disk)}, t, i)
+				Access: *access, Many: *many, Storm: *storm, Crash: *crashMode, Loss: *loss, MaxImg: *maximg, DiskSz: concDisk(*crashMode, *disk)}, t, i)
 		}
 		t.Close()
 		fmt.Printf("events=%d\n", t.N)
